@@ -297,6 +297,19 @@ def run(spec, rec):
                     sc = np.max(np.abs(fdir.data))
                     err = float(np.max(np.abs(np.asarray(f0.data) - np.asarray(fdir.data))) / sc)
                     rec.close("inbreeding-F-to-0", err, 10 * F0 * max(ns) + 1e-6 + 5 * nd * lgamma_tol(F0, max(ns)), site=site, tags=dict(tags, F=F0), observed=err)
+            # the same with heterozygote ascertainment in one population: F exactly 0 is the ascertained direct path, and F -> 0 tends to it
+            nm = ["xx", "yy", "zz"][int(rng.integers(nd))]
+            okha, fha = rec.noraise("from_phi-returns", lambda: Spectrum.from_phi(phi, ns, grids, mask_corners=False, het_ascertained=nm, force_direct=True), site="Spectrum.from_phi", tags=dict(tags, het=nm))
+            okh0, fh0 = rec.noraise("from_phi_inbreeding-returns", lambda: Spectrum.from_phi_inbreeding(phi, ns, grids, [0.0] * nd, ploidys, mask_corners=False, het_ascertained=nm),
+                                    site=site, tags=dict(tags, het=nm))
+            okh1, fh1 = rec.noraise("from_phi_inbreeding-returns", lambda: Spectrum.from_phi_inbreeding(phi, ns, grids, [1e-6] * nd, ploidys, mask_corners=False, het_ascertained=nm),
+                                    site=site, tags=dict(tags, het=nm))
+            if okha and okh0:
+                rec.close("inbreeding-F-equals-0", relerr(np.asarray(fh0.data), np.asarray(fha.data)), TOL, site=site, tags=dict(tags, het=nm))
+            if okha and okh1:
+                sc = np.max(np.abs(fha.data))
+                rec.close("inbreeding-F-to-0", float(np.max(np.abs(np.asarray(fh1.data) - np.asarray(fha.data))) / sc),
+                          10 * 1e-6 * max(ns) + 1e-6 + 5 * nd * lgamma_tol(1e-6, max(ns)), site=site, tags=dict(tags, F=1e-6, het=nm))
             okz, fz = rec.noraise("from_phi_inbreeding-returns", lambda: Spectrum.from_phi_inbreeding(phi, ns, grids, [0.0] * nd, ploidys, mask_corners=False), site=site, tags=tags)
             if okz and okd:
                 rec.close("inbreeding-F-equals-0", relerr(np.asarray(fz.data), np.asarray(fdir.data)), TOL, site=site, tags=tags)
